@@ -423,3 +423,52 @@ def compare_status(c, exp, res):
     if res['exit'] != exp['status']:
         return [('status', 'exit status %r, report content implies %r' % (res['exit'], exp['status']))]
     return []
+
+
+# ---------------------------------------------------------------------------
+# code -> spec: validation of recorded `rated` traces against TraceRating.tla
+# ---------------------------------------------------------------------------
+_TAG = re.compile(r'(?:-- |`- )\[(fail|warn|info)\] ')
+TRACE_INVARIANTS = ['ShownIsAdvertised', 'ExitRule', 'StatusDomain', 'PositionIndependent', 'UnknownFlagged', 'TerrapinExact']
+
+
+def trace_of(c, res):
+    evs = []
+    for e in res['events']:
+        if e.get('ev') != 'rated' or e['cat'] not in ('kex', 'key', 'enc', 'mac'):
+            continue
+        levels = []
+        for method, text in e['calls']:
+            m = _TAG.search(report.strip_ansi(text))
+            if m:
+                levels.append(m.group(1))
+        evs.append({'cat': e['cat'], 'name': alias(e['name']), 'levels': levels, 'before': e['before'], 'after': e['after']})
+    return {'case': tlc_case(c), 'events': evs, 'exit': res['exit']}
+
+
+def validate_traces(ck, items, chunk=4000):
+    """items: [(case, result)] of runs made with observe=True. Returns [(verdict, at)] in order."""
+    verdicts = []
+    for s in range(0, len(items), chunk):
+        part = items[s:s + chunk]
+        traces = [trace_of(c, r) for c, r in part]
+        cfg = 'SPECIFICATION TraceSpec\nCONSTANT Mode = "trace"\n' + ''.join('INVARIANT %s\n' % i for i in TRACE_INVARIANTS) + \
+              'INVARIANT Verdict\nPROPERTY StatusMonotone\n'
+        res = tlc.run('TraceRating', cfg, generated={'tables.json': tables_json(), 'traces.json': json.dumps(traces)},
+                      env={'VERIF_TABLES': 'tables.json', 'VERIF_TRACES': 'traces.json'})
+        ck.add_tlc(res)
+        if res.violated:
+            # an invariant of the specification failed on a state reached by following a real trace
+            raise InvariantOnTrace(res.violated, '\n'.join(res.trace[:80]))
+        got = {p['tid']: p for p in res.prints if isinstance(p, dict) and 'verdict' in p}
+        common.require(len(got) == len(part), 'TraceRating gave %d verdicts for %d traces' % (len(got), len(part)))
+        for i in range(len(part)):
+            verdicts.append((got[i + 1]['verdict'], got[i + 1]['at']))
+    return verdicts
+
+
+class InvariantOnTrace(Exception):
+    def __init__(self, inv, trace):
+        Exception.__init__(self, inv)
+        self.inv = inv
+        self.trace = trace
